@@ -251,6 +251,39 @@ func bindValue(s *Summary, c *bindCase) {
 		}
 	}
 	binding.ResetValidator()
+	if !c.Valid {
+		// an invalid value followed by MORE well-formed input in the same body: whatever the binder makes of the rest, it
+		// never reports success for a struct that does not pass validation
+		tails := map[string][]string{"application/json": {" {", " 1", ` "x"`, " null", "\n{}", " []", " }"}, "text/xml": {"<x/>", "<!-- c -->", "<bindT></bindT>", "<"}}
+		for media, tl := range tails {
+			for _, tail := range tl {
+				raw, ctype := bodyFor(media, v)
+				for _, entry := range []string{"Auto", "Bind", "raw"} {
+					var got bindT
+					var err error
+					var pan any
+					switch {
+					case entry == "Auto":
+						err, pan = safeBind(func() error { return binding.Auto(mkReq("POST", "/b", raw+tail, ctype), &got) })
+					case entry == "Bind" && media == "text/xml":
+						err, pan = safeBind(func() error { return binding.XML.Bind(mkReq("POST", "/b", raw+tail, ctype), &got) })
+					case entry == "Bind":
+						err, pan = safeBind(func() error { return binding.JSON.Bind(mkReq("POST", "/b", raw+tail, ctype), &got) })
+					case media == "text/xml":
+						err, pan = safeBind(func() error { return binding.XML.BindBytes([]byte(raw+tail), &got) })
+					default:
+						err, pan = safeBind(func() error { return binding.JSON.BindBytes([]byte(raw+tail), &got) })
+					}
+					s.Compared++
+					if pan != nil || err == nil {
+						s.mismatch(map[string]any{"kind": "bind", "aspect": "roundtrip", "what": fmt.Sprintf(
+							"invalid value %+v encoded as %s and followed by %q in the same body, entry point %s, validator on: err=%v panic=%v - a bind that succeeds implies validation passed", v, media, tail, entry, err, pan)}, c)
+						return
+					}
+				}
+			}
+		}
+	}
 }
 
 type bindVoid struct {
